@@ -39,11 +39,24 @@ package hash
 //@   modifies calls(h.hashFunc)
 
 // weights: replicas = h.replicas * weight / 100 (clamped to h.replicas by AddWithReplicas)
+// every weighted / plain add is exactly one AddWithReplicas (which first removes the node's previous virtual nodes), whatever
+// the weight: ghost record of the AddWithReplicas activations
+//@ ghost var awrCalls int
+//@ ghost var awrNode any
+//@ ghost var awrReplicas int
 //@ func (h *ConsistentHash) AddWithWeight
 //@   property C15
 //@   requires h.ring != nil && h.nodes != nil && h.replicas >= 100
 //@   requires forall(i.(int), j.(int), implies(0 <= i && i <= j && j < len(h.keys), h.keys[i] <= h.keys[j]))
 //@   call AddWithReplicas#0: assert arg_node == node && arg_replicas == h.replicas * weight / 100
+//@   ensures awrCalls == old(awrCalls) + 1 && awrNode == node && awrReplicas == old(h.replicas) * weight / 100
+//@   ensures inDom(h.nodes, repr(node))
+//@ func (h *ConsistentHash) Add
+//@   property C15
+//@   requires h.ring != nil && h.nodes != nil && h.replicas >= 100
+//@   requires forall(i.(int), j.(int), implies(0 <= i && i <= j && j < len(h.keys), h.keys[i] <= h.keys[j]))
+//@   ensures awrCalls == old(awrCalls) + 1 && awrNode == node && awrReplicas == old(h.replicas)
+//@   ensures inDom(h.nodes, repr(node))
 
 // removeRingNode: afterwards the bucket holds no member with that repr; it is dropped iff it became empty
 //@ func (h *ConsistentHash) removeRingNode
@@ -91,6 +104,10 @@ package hash
 //@   requires forall(i.(int), j.(int), implies(0 <= i && i <= j && j < len(h.keys), h.keys[i] <= h.keys[j]))
 //@   call Remove#0: assert arg_node == node
 //@   call append#1: assert arg1 == node
+//@   ghost at entry: awrCalls = awrCalls + 1
+//@   ghost at entry: awrNode = node
+//@   ghost at entry: awrReplicas = replicas
+//@   ensures awrCalls == old(awrCalls) + 1 && awrNode == node && awrReplicas == old(replicas)
 //@   loop 0: modifies h.keys, mapof(h.ring), calls(h.hashFunc)
 //@   loop 0: invariant 0 <= i && replicas <= h.replicas && h.ring != nil && h.nodes != nil && inDom(h.nodes, repr(node))
 //@   ensures inDom(h.nodes, repr(node))
